@@ -135,7 +135,7 @@ func strFormat(L *LState) int {
 	for i := 2; i <= top; i++ {
 		args[i-2] = L.Get(i)
 	}
-	npat := strings.Count(str, "%") - strings.Count(str, "%%")
+	npat := strings.Count(str, "%") - 2*strings.Count(str, "%%")
 	L.Push(LString(fmt.Sprintf(str, args[:intMin(npat, len(args))]...)))
 	return 1
 }
